@@ -277,6 +277,12 @@ def load_findings():
 # -------------------------------------------------------------------------------------------
 # main entry
 # -------------------------------------------------------------------------------------------
+def _raised_in_impl(e):
+    """was the exception raised by code of the package under test (innermost frames inside .../pyroll/)?"""
+    tb = traceback.extract_tb(e.__traceback__)
+    return any("/pyroll/" in f.filename for f in tb[-6:])
+
+
 def write_json(path, obj):
     os.makedirs(os.path.dirname(path), exist_ok=True)
     tmp = path + ".tmp%d" % os.getpid()
@@ -355,6 +361,14 @@ def run_check(pid, tier, seed, replay=None):
             mod.run(ctx)
     except InfraError:
         raise
+    except Exception as e:
+        # An exception escaping the harness: if it was raised from inside the implementation, the harness could not
+        # complete against this source tree (tie broken; the extended search below looks for a concrete failing input);
+        # otherwise it is a bug of the harness itself = infrastructure error.
+        if not _raised_in_impl(e):
+            raise
+        tie_broken.append({"kind": "correspondence", "what": f"the implementation raised {type(e).__name__}: {e} "
+                           "where the harness expects none", "trace": traceback.format_exc()[-2500:]})
     for (what, rp) in ctx.disagreements:
         tie_broken.append({"kind": "correspondence", "what": what, "replay": rp})
     tie_broken.extend({"kind": "translator-gap", "what": w} for w in ctx.tie_breaks)
@@ -375,6 +389,11 @@ def run_check(pid, tier, seed, replay=None):
             mod.run(ext)
         except InfraError:
             raise
+        except Exception as e:
+            if not _raised_in_impl(e):
+                raise
+            tie_broken.append({"kind": "correspondence", "what": f"extended search: the implementation raised "
+                               f"{type(e).__name__}: {e}", "trace": traceback.format_exc()[-2500:]})
         unlisted = [(k, w, r) for (k, w, r) in ext.violations if (pid, k) not in known]
         for (k, w, r) in ext.violations:
             if (pid, k) in known:
